@@ -282,6 +282,15 @@ func runCase(c *core.Case) {
 		return rep, ok
 	}
 	desc := fmt.Sprintf("%s name=%q path=%x", kind, h.b, p.b)
+	if kind == "upload-folder-onto-root" {
+		// the earlier request that left the entry (done before the audited window opens: the harness touches files here)
+		if r.Bool() {
+			call(205, rc.FS(201, ".incomplete"))
+		} else {
+			os.WriteFile(filepath.Join(zoneRoot, ".incomplete"), []byte("partial"), 0644)
+		}
+		before = fixture.Snapshot(srv.Dir)
+	}
 	if auditMark != nil {
 		auditMark("B", sb, strings.HasPrefix(kind, "create-then") || strings.Contains(kind, "user") || strings.HasPrefix(kind, "update-"))
 	}
@@ -407,12 +416,6 @@ func runCase(c *core.Case) {
 		// header carries no path item or only '..' items. The item's partial and final names are then derived from the
 		// root's own name: nothing may appear next to the root.
 		placement = "item-header"
-		if r.Bool() {
-			call(205, rc.FS(201, ".incomplete"))
-		} else {
-			os.WriteFile(filepath.Join(zoneRoot, ".incomplete"), []byte("partial"), 0644)
-		}
-		before = fixture.Snapshot(srv.Dir)
 		spell := core.Pick(r, []string{"", "", ".", "..", "/", "absent"})
 		fs := []rc.Field{rc.F(108, rc.U32(50)), rc.F(220, rc.U16(1))}
 		if spell != "absent" {
